@@ -196,7 +196,7 @@ func (o *orC04) checkPublished(e *ZKEvent) {
 			m.violate("C04", "member_cascade", "cascade-replica-in-active-list", fmt.Sprintf("%s published %s containing cascade replica %s", e.Inc, e.Data, h))
 			m.violate("C16", "cascade_active", "cascade-replica-in-active-list", fmt.Sprintf("%s published %s containing cascade replica %s", e.Inc, e.Data, h))
 		}
-		if m.recovery[h] {
+		if m.recovery[h] && m.recoverySince[h] < o.iterStart(e.Inc) {
 			m.violate("C04", "member_recovery", "host-marked-for-recovery-in-active-list", fmt.Sprintf("%s published %s while recovery/%s exists", e.Inc, e.Data, h))
 		}
 		mst := s.mysql.servers[m.master]
